@@ -30,6 +30,8 @@ def parseInstr (tok : String) : Option Instr :=
   | 'T' => rest.toNat?.map .waitthread
   | 'p' => if rest.isEmpty then some .pause else none
   | 'R' => rest.toNat?.map .waitParent
+  | 'Y' => match natsDot rest with | some ns => if ns.isEmpty then none else some (.waittillParent ns) | none => none
+  | 'Z' => rest.toNat?.map .notifyParent
   | 'P' => rest.toNat?.map .pparam
   | 'e' =>
     if rest.isEmpty then some (.end_ .none)
